@@ -45,7 +45,7 @@ fn parse(args: &[String]) -> Result<Opts, String> {
     let mut i = 0;
     while i < args.len() {
         let a = args[i].as_str();
-        let mut val = |i: &mut usize| -> Result<String, String> {
+        let val = |i: &mut usize| -> Result<String, String> {
             *i += 1;
             args.get(*i).cloned().ok_or_else(|| format!("missing value after {}", a))
         };
